@@ -39,6 +39,17 @@ MUTANTS = {
         ('ck-pssh-v0', 'dashlive/drm/clearkey.py', "            version=1,\n            flags=0,\n            system_id=self.RAW_PSSH_SYSTEM_ID,", "            version=0,\n            flags=0,\n            system_id=self.RAW_PSSH_SYSTEM_ID,"),
         ('ck-pssh-data', 'dashlive/drm/clearkey.py', "            key_ids=keys,\n            data=None)", "            key_ids=keys,\n            data=b'')"),
     ],
+    'C15': [
+        ('auth-admin-inverted', 'dashlive/server/requesthandler/decorators.py', "            if admin and not current_user.is_admin:", "            if admin and current_user.is_admin:"),
+        ('auth-perm-dropped', 'dashlive/server/requesthandler/decorators.py', "            if permission and not current_user.has_permission(permission):\n                return needs_login_response(admin=admin, html=html, permission=permission)\n", ""),
+        ('auth-jwt-anon', 'dashlive/server/requesthandler/decorators.py', "            if not jwt_current_user.is_authenticated:\n                return jsonify_no_content(401)\n", ""),
+        ('auth-csrf-optional', 'dashlive/server/requesthandler/decorators.py', "                if token is None and optional:\n                    return func(*args, **kwargs)", "                if token is None:\n                    return func(*args, **kwargs)"),
+        ('auth-csrf-swallow', 'dashlive/server/requesthandler/decorators.py', "                CsrfProtection.check(service, token)\n            except (ValueError, CsrfFailureException) as err:", "                CsrfProtection.check(service, token)\n            except (ValueError,) as err:"),
+        ('guard-stream-delete', 'dashlive/server/requesthandler/streams.py', "    @login_required(permission=models.Group.MEDIA)\n    def delete(", "    def delete("),
+        ('guard-defaults-post', 'dashlive/server/requesthandler/streams.py', "    @login_required(permission=models.Group.MEDIA)\n    def post(self, spk: int) -> flask.Response:\n        try:\n            self.check_csrf('streams', flask.request.form)", "    def post(self, spk: int) -> flask.Response:\n        try:\n            self.check_csrf('streams', flask.request.form)"),
+        ('guard-keys-class', 'dashlive/server/requesthandler/keypairs.py', "    decorators = [login_required(permission=models.Group.MEDIA)]", "    decorators = []"),
+        ('guard-keys-admin-only', 'dashlive/server/requesthandler/keypairs.py', "    decorators = [login_required(permission=models.Group.MEDIA)]", "    decorators = [login_required()]"),
+    ],
     'C20': [
         ('seek-no-upper-clamp', 'dashlive/utils/buffered_reader.py', '            self.pos = min(self.pos, self.size)\n', '            pass\n'),
         ('seek-end-sign', 'dashlive/utils/buffered_reader.py', '            self.pos = self.size + offset\n', '            self.pos = self.size - offset\n'),
